@@ -2492,6 +2492,13 @@ func ruleTaggedOnce(c *Ctx, rule string) {
 func delegatesConstraintStep(fn *ssa.Function, f *types.Func) (*ssa.Function, int, ssa.CallInstruction) {
 	isStep := func(v ssa.Value) bool {
 		var sf *ssa.Function
+		for {
+			ct, isCT := v.(*ssa.ChangeType)
+			if !isCT {
+				break
+			}
+			v = ct.X
+		}
 		switch x := v.(type) {
 		case *ssa.Function:
 			sf = x
